@@ -485,7 +485,7 @@ func isNumericTree(e Expr) bool {
 	case "str", "bool", "not":
 		return false
 	case "path":
-		return contains(intPaths, e.V) || contains(floatPaths, e.V)
+		return contains(intPaths, e.V) || contains(floatPaths, e.V) || contains(fnIntPaths, e.V)
 	case "paren":
 		return isNumericTree(e.A[0])
 	case "tern":
